@@ -516,6 +516,14 @@ func judgeC14(c *SrvCase, obs *SrvObs, o *Outcome) {
 			return
 		}
 	}
+	// the same when the peer did not stay to read the answer (it vanished right after sending more): a prefix of its script
+	// completes the handshake, so the callbacks are those of a session that was established and then ended
+	for i := 1; i <= len(c.Script); i++ {
+		if RunServerModel(&SrvCase{Cfg: c.Cfg, Script: c.Script[:i]}, observedNegotiation(obs)).Status == "established" {
+			o.Class("established-before-the-peer-vanished")
+			return
+		}
+	}
 	if !failing {
 		return
 	}
